@@ -146,6 +146,11 @@ func classifyRHS(e ast.Expr) int {
 	case *ast.CompositeLit:
 		return clFresh
 	case *ast.UnaryExpr:
+		if x.Op == token.AND {
+			if _, ok := x.X.(*ast.Ident); ok {
+				return clFresh // address of a local copy
+			}
+		}
 		return classifyRHS(x.X)
 	}
 	return clShared
@@ -308,8 +313,10 @@ func inventory(repo string) []fieldRow {
 				row.Class = clValue
 			case s.direct == clDeep || (s.elem && s.elemCl == clDeep):
 				row.Class = clDeep
+			case s.direct == clFresh && s.elem && s.elemCl != clShared && s.elemCl != 0:
+				row.Class = clDeep // new container filled element by element with rebuilt elements
 			case s.direct == clFresh && s.elem:
-				row.Class = clDeep // new container filled element by element
+				row.Class = clShared // new container, elements taken from the source
 			case s.direct == clFresh:
 				row.Class = clFresh
 			case s.direct == 0 && s.elem:
